@@ -210,3 +210,12 @@ pub fn run(seed: u64, tier: &str) {
         eprintln!("TREESAMPLE {}", s);
     }
 }
+
+/// Replay helper: observe every line of a file.
+pub fn observe_file(path: Option<&str>) {
+    let text = path.map(|p| std::fs::read_to_string(p).unwrap_or_default()).unwrap_or_default();
+    for line in text.lines() {
+        let obs = observe(line);
+        println!("TREEOBS {:?} {}", obs, line);
+    }
+}
